@@ -1,7 +1,7 @@
 (* C11/Properties.v — the property theorems, nothing else.  Each is closed by [exact lemma]
    and followed by Print Assumptions (captured into the evidence by the check driver). *)
 From Coq Require Import Permutation.
-From Verif Require Import Common.Base Generated.StatusTable C11.Model C11.Diagram C11.Proofs C11.ProofsConc C11.ProofsRepair C11.ProofsTie C11.ProofsRound4.
+From Verif Require Import Common.Base Generated.StatusTable C11.Model C11.Diagram C11.Proofs C11.ProofsConc C11.ProofsRepair C11.ProofsTie C11.ProofsRound4 C11.ProofsAudit C11.Harness C11.ProofsPropOk C11.ProofsLink C11.Repaired.
 From Verif Require Import Generated.C11Ring.
 
 (* The transition table read from the Go source IS the documented diagram (instance obligation,
@@ -193,6 +193,109 @@ Theorem notify_before_commit_refuted :
   exists rs, ~ path SNone (fsm_run_notify_first SNone rs) /\ path SNone (events_of (map fst rs)).
 Proof. exact notify_first_refuted_l. Qed.
 
+(* ---- round 5: clause audit -----------------------------------------------------------------------------------
+   "A report that would be an illegal transition changes NOTHING": at the level of the whole reporter and of
+   everything that happens afterwards — deleting the illegal report from ANY history (any instances, any
+   interleaving) leaves the delivered events unchanged ... *)
+Theorem illegal_report_is_invisible : forall ls1 ls2 i s,
+  diagram (rget i (fst (rep_run [] ls1))) s = false ->
+  snd (rep_run [] (ls1 ++ (i, RStatus s) :: ls2)) = snd (rep_run [] (ls1 ++ ls2)).
+Proof. exact illegal_report_invisible_l. Qed.
+
+(* ... and so does an automatic OK that comes when the instance is no longer in Starting. *)
+Theorem late_auto_ok_is_invisible : forall ls1 ls2 i,
+  rget i (fst (rep_run [] ls1)) <> Starting ->
+  snd (rep_run [] (ls1 ++ (i, RAutoOK) :: ls2)) = snd (rep_run [] (ls1 ++ ls2)).
+Proof. exact late_auto_ok_invisible_l. Qed.
+
+(* "the automatic OK after a successful start": at the level of StartAll / Extensions.Start scripts, after ANY
+   lifecycle history of any number of components, the nil return of Start delivers OK exactly when the last event
+   delivered for that instance is Starting. *)
+Theorem lifecycle_auto_ok : forall os i,
+  lc_events (os ++ [LcStartOk i]) =
+  lc_events os ++ (if status_eqb (last (proj_events i (lc_events os)) SNone) Starting then [(i, OK)] else []).
+Proof. exact lifecycle_auto_ok_l. Qed.
+
+(* The hypotheses of shared_fanout_uniform hold in every state reached by a script in which every instance attaches
+   once (Component.Start is called once per instance): after ANY such script every attached instance is handed
+   exactly the reports that follow, in order. *)
+Theorem shared_fanout_reachable : forall os es k,
+  NoDup (attached os) -> In k (attached os) ->
+  sc_run shared0 (os ++ map ScReport es) = sc_run shared0 os ++ sc_run (sc_final shared0 os) (map ScReport es) /\
+  proj_reports k (sc_run (sc_final shared0 os) (map ScReport es)) = map RStatus es.
+Proof. exact shared_fanout_reachable_l. Qed.
+
+(* ---- round 5: the clause checkers run over the OBSERVED behaviour are the clauses --------------------------- *)
+Theorem clause_checker_paths_sound : forall es,
+  paths_code [] es = 0 <-> forall i, path SNone (proj_events i es).
+Proof. exact paths_ok_sound_l. Qed.
+
+Theorem clause_checker_shared_sound : forall rs,
+  shared_code rs = 0 <->
+  forall i j, In i (map fst rs) -> In j (map fst rs) -> rget i (accept_run [] rs) = rget j (accept_run [] rs).
+Proof. exact shared_code_spec_l. Qed.
+
+Theorem clause_checker_instances_sound : forall os obs,
+  inst_code os obs = 0 <-> forall o p, In o os -> In p (ipipes o) -> In (p, ikey o) obs.
+Proof. exact inst_code_spec_l. Qed.
+
+(* ---- the clause checker accepts what the MODEL produces (C11/ProofsLink.v) ------------------------------------
+   observe = the harness' encoding (evZ / repZ / delivZ / pairsZ) applied to the model's own run.  Guards: exactly
+   those of the theorems about the respective model piece; `fst e < 100` is a guard of the ENCODING of kind 5 (the
+   harness keys a delivery by watcher * 100 + instance), not of the model. *)
+Theorem checker_accepts_reporter_model : forall ls x, prop_code (0, (x, evZ (snd (rep_run [] ls)))) = 0.
+Proof. exact link_reporter_l. Qed.
+
+Theorem checker_accepts_lifecycle_model : forall os x, prop_code (2, (x, evZ (lc_events os))) = 0.
+Proof. exact link_lifecycle_l. Qed.
+
+Theorem checker_accepts_concurrent_model : forall pre conc out x,
+  In out (conc_outcomes pre conc) -> prop_code (3, (x, evZ out)) = 0.
+Proof. exact link_concurrent_l. Qed.
+
+Theorem checker_accepts_watcher_model : forall ws ls x,
+  NoDup ws -> Forall (fun e => fst e < 100) (snd (rep_run [] ls)) ->
+  prop_code (5, (x, delivZ (watcher_deliveries ws (snd (rep_run [] ls))))) = 0.
+Proof. exact link_watchers_l. Qed.
+
+Theorem checker_accepts_instances_model : forall os, inst_code os (pairsZ (inst_pairs (inst_run os))) = 0.
+Proof. exact link_instances_l. Qed.
+
+(* the shared component: under the guards of shared_delivers_all_partial the faithful model passes ... *)
+Theorem checker_accepts_shared_model_partial : forall i j es es' x,
+  i <> j -> length es <= ring_cap ->
+  let os := ScAttach i :: map ScReport es ++ ScAttach j :: map ScReport es' in
+  prop_code (1, (x, repZ (sc_run shared0 os))) = 0 /\ prop_code (6, (x, repZ (sc_run shared0 os))) = 0.
+Proof. exact (fun i j es es' x N L => conj (link_shared_l i j es es' x N L) (link_shared_conc_l i j es es' x N L)). Qed.
+
+(* ... for ANY number of instances attaching at any moments, as long as every attach happens while the ring still holds
+   the whole history (attach_ok: at most ring_cap reports since the first attach; NoDup: each instance attaches once) ... *)
+Theorem checker_accepts_shared_model_general : forall i os x,
+  NoDup (i :: attached os) -> attach_ok 0 os ->
+  prop_code (1, (x, repZ (sc_run shared0 (ScAttach i :: os)))) = 0 /\
+  prop_code (6, (x, repZ (sc_run shared0 (ScAttach i :: os)))) = 0.
+Proof. exact link_shared_general_l. Qed.
+
+(* ... without them it does NOT (finding S3: the checker's verdict 8 and shared_delivers_all_refuted are the same fact) ... *)
+Theorem checker_rejects_shared_model_refuted : exists os, prop_code (1, ([], repZ (sc_run shared0 os))) = 8.
+Proof. exact link_shared_refuted_l. Qed.
+
+(* ... and the REPAIRED model passes without any guard. *)
+Theorem checker_accepts_shared_repaired_model : forall i j es es' x,
+  i <> j ->
+  let os := ScAttach i :: map ScReport es ++ ScAttach j :: map ScReport es' in
+  prop_code (4, (x, repZ (sc2_run shared2_0 os))) = 0.
+Proof. exact link_shared_repaired_l. Qed.
+
+(* finding S3 repaired (C11/Repaired.v; work/C11/fix/S3.diff): the refuted statement becomes a theorem *)
+Theorem shared_delivers_all_repaired_full : forall i j es es',
+  i <> j ->
+  let os := ScAttach i :: map ScReport es ++ ScAttach j :: map ScReport es' in
+  last (proj_events j (sc_events_repaired os)) SNone = last (proj_events i (sc_events_repaired os)) SNone /\
+  path SNone (proj_events j (sc_events_repaired os)) /\
+  (proj_events i (sc_events_repaired os) <> [] -> exists r, proj_events j (sc_events_repaired os) = Starting :: r).
+Proof. exact shared_delivers_all_repaired. Qed.
+
 Print Assumptions table_is_diagram.
 Print Assumptions events_follow_diagram.
 Print Assumptions events_in_words.
@@ -220,3 +323,20 @@ Print Assumptions table_covers_enum.
 Print Assumptions shared_fanout_uniform.
 Print Assumptions instance_names_every_pipeline.
 Print Assumptions notify_before_commit_refuted.
+Print Assumptions illegal_report_is_invisible.
+Print Assumptions late_auto_ok_is_invisible.
+Print Assumptions lifecycle_auto_ok.
+Print Assumptions shared_fanout_reachable.
+Print Assumptions clause_checker_paths_sound.
+Print Assumptions clause_checker_shared_sound.
+Print Assumptions clause_checker_instances_sound.
+Print Assumptions checker_accepts_reporter_model.
+Print Assumptions checker_accepts_lifecycle_model.
+Print Assumptions checker_accepts_concurrent_model.
+Print Assumptions checker_accepts_watcher_model.
+Print Assumptions checker_accepts_instances_model.
+Print Assumptions checker_accepts_shared_model_partial.
+Print Assumptions checker_rejects_shared_model_refuted.
+Print Assumptions checker_accepts_shared_repaired_model.
+Print Assumptions shared_delivers_all_repaired_full.
+Print Assumptions checker_accepts_shared_model_general.
